@@ -14,7 +14,6 @@ Arrays: 1-3 dimensions, 0-4 elements per axis, int64 / int32 / float64 (half-int
 Fortran, transposed-view and strided-view layouts (generators of harness/npcommon.py).
 Note the operand order: delta + array (array + delta raises DeltaNumpyOperatorOverrideError: checked once).
 """
-import copy
 import itertools
 import logging
 
@@ -365,6 +364,8 @@ def corr_pair(ctx, a, b, how, cases):
     for bidir, base, which in runs:
         always = rng.random() < 0.5
         cfg = dict(verbose_level=rng.choice((0, 1, 2)), view=rng.choice(("text", "tree")))
+        expr = "sx_np_roundtrip (tbl_ops []) %s %s %s %s %s" % (
+            coq_bool(rng.random() < 0.5), coq_bool(bidir), ca, cb, NP.arr_to_coq(base))
         try:
             d = Delta(DeepDiff(a, b, **cfg), bidirectional=bidir, always_include_values=always)
             pay = payload_obs(d.diff, "root", b.dtype)
@@ -372,8 +373,6 @@ def corr_pair(ctx, a, b, how, cases):
             exp = [True, pay, result_obs(r, errs)]
         except Exception as e:  # noqa - the model never raises: a mismatch
             exp = ["RAISED", type(e).__name__, str(e)[:120]]
-        expr = "sx_np_roundtrip (tbl_ops []) %s %s %s %s %s" % (
-            coq_bool(rng.random() < 0.5), coq_bool(bidir), ca, cb, NP.arr_to_coq(base))
         cases.append((expr, exp, dict(numpy=True, a=NP.describe(a), b=NP.describe(b), base=which if which == "a" else NP.describe(base),
                                       bidirectional=bidir, always_include_values=always, cfg=cfg, changed=str(how),
                                       layouts=[NP.layout_of(a), NP.layout_of(b), NP.layout_of(base)])))
@@ -382,79 +381,71 @@ def corr_pair(ctx, a, b, how, cases):
             ctx.count("np:corr:other_base:verification_errors_logged")
 
 
-def corr_handbuilt(ctx, n, cases):
+def handbuilt_case(ctx, entries, c, bidir, cases, label):
+    """one hand-built payload applied to c: inside the domain predicate the result array and the error count are
+    compared with apply_np, outside only the predicate itself (the model claims nothing there)"""
     from deepdiff import Delta
+    dom = dom_py(entries, c, bidir)
+    tag = dict(numpy=True, handbuilt=[[idx, repr(new), "MISSING" if old is MISSING else repr(old)] for idx, new, old in entries],
+               base=NP.describe(c), bidirectional=bidir, in_domain=dom, layout=NP.layout_of(c), source=label)
+    try:
+        coq_p, coq_c = coq_payload(entries, c.dtype.name), NP.arr_to_coq(c)     # before the application
+    except (TypeError, AssertionError):
+        ctx.count("np:%s:not_emittable" % label)
+        return
+    sc, jc = snapshot(c), arr_json(c)
+    r, errs = apply_impl(Delta(py_payload(entries, c.dtype.name), bidirectional=bidir), c)
+    if snapshot(c) != sc:
+        ctx.fail(dict(numpy=True, a=jc, handbuilt=tag["handbuilt"], bidirectional=bidir, observed="an input was modified",
+                      clause="an input was modified"), "Delta + array modified the array (mutate=False)")
+    if dom:
+        cases.append(("sx_np_apply %s %s %s" % (coq_bool(bidir), coq_p, coq_c),
+                      [True, result_obs(r, errs) if not isinstance(r, tuple) else list(r)], tag))
+        ctx.count("np:%s:in_domain:errors_%s" % (label, errs if errs < 2 else "2+"))
+    else:
+        cases.append(("SL [sx_bool (np_dom %s %s %s)]" % (coq_bool(bidir), coq_p, coq_c), [False], tag))
+        ctx.count("np:%s:outside_domain:%s" % (label, "raised_" + r[1] if isinstance(r, tuple) else "returned"))
+
+
+def corr_handbuilt(ctx, n, cases):
     for entries, c, bidir in gen_handbuilt(ctx.rng, n):
-        dom = dom_py(entries, c, bidir)
-        tag = dict(numpy=True, handbuilt=[[idx, repr(new), "MISSING" if old is MISSING else repr(old)] for idx, new, old in entries],
-                   base=NP.describe(c), bidirectional=bidir, in_domain=dom, layout=NP.layout_of(c))
-        sc = snapshot(c)
-        r, errs = apply_impl(Delta(py_payload(entries, c.dtype.name), bidirectional=bidir), c)
-        if snapshot(c) != sc:
-            ctx.fail(dict(numpy=True, a=arr_json(c), handbuilt=tag["handbuilt"], observed="an input was modified",
-                          clause="an input was modified"), "Delta + array modified the array (mutate=False)")
-        try:
-            coq = coq_payload(entries, c.dtype.name)
-        except (TypeError, AssertionError):
-            ctx.count("np:handbuilt:not_emittable")
-            continue
-        if dom:
-            expr = "sx_np_apply %s %s %s" % (coq_bool(bidir), coq, NP.arr_to_coq(c))
-            exp = [True, result_obs(r, errs) if not isinstance(r, tuple) else list(r)]
-            ctx.count("np:handbuilt:in_domain:errors_%s" % ("0" if not errs else "1+"))
-        else:
-            # outside the domain predicate the model claims nothing: only the predicate itself is compared
-            expr = "SL [sx_bool (np_dom %s %s %s)]" % (coq_bool(bidir), coq, NP.arr_to_coq(c))
-            exp = [False]
-            ctx.count("np:handbuilt:outside_domain:%s" % ("raised_" + r[1] if isinstance(r, tuple) else "returned"))
-        cases.append((expr, exp, tag))
+        handbuilt_case(ctx, entries, c, bidir, cases, "handbuilt")
 
 
-FIXED_HANDBUILT = [
-    # (entries, array, bidir): the error branches of apply_np, one by one
-    ([([0, 3], np.int64(9), MISSING)], np.array([[1, 2, 3], [4, 5, 6]]), False),            # last index out of range
-    ([([2, 1], np.int64(9), MISSING)], np.array([[1, 2, 3], [4, 5, 6]]), False),            # first index out of range
-    ([([1, 1, 0], np.int64(9), MISSING)], np.array([[1, 2, 3], [4, 5, 6]]), False),         # path too long
-    ([([1, 1, 0, 0, 0], 9, MISSING)], np.array([[1, 2, 3], [4, 5, 6]]), False),             # much too long
-    ([([1], np.int64(9), MISSING)], np.array([[1, 2, 3], [4, 5, 6]]), False),               # too short: broadcast over the row
-    ([([1], 50, MISSING), ([1, 0], 5, MISSING)], np.arange(8).reshape(2, 2, 2), False),     # block, then a sub-block of it
-    ([([1, 0], 5, MISSING), ([1], 50, MISSING)], np.arange(8).reshape(2, 2, 2), False),     # the other order
-    ([([1], 2, MISSING)], np.zeros((2, 0), dtype="int64"), False),                          # empty block
-    ([([0, 0], 2, MISSING)], np.zeros((2, 0), dtype="int64"), False),                       # no element at all
-    ([([0, 1], None, MISSING)], np.array([[1, 2, 3], [4, 5, 6]]), False),                   # None into int64: TypeError logged
-    ([([0, 1], None, 7)], np.array([[1, 2, 3], [4, 5, 6]]), True),                          # ... + verification error
-    ([([1], None, MISSING)], np.array([True, True]), False),                                # None into bool: False
-    ([([0, 1], -1.5, MISSING)], np.array([[1, 2, 3], [4, 5, 6]]), False),                   # truncation towards zero
-    ([([0, 1], 2.5, MISSING)], np.array([[1, 2, 3], [4, 5, 6]], dtype="int32"), False),
-    ([([1], 0.5, MISSING)], np.array([True, False]), False),
-    ([([1], True, MISSING)], np.array([1.5, 2.5]), False),
-    ([([0, 1], 7, 2.0)], np.array([[1, 2, 3], [4, 5, 6]]), True),                           # old value equal across types
-    ([([0, 1], 7, True)], np.array([[1, 2, 3], [4, 5, 6]]), True),                          # wrong old value
-    ([([0, 1], 7, MISSING)], np.array([[1, 2, 3], [4, 5, 6]]), True),                       # old value missing
-    ([([0, 5], 7, 1)], np.array([[1, 2, 3], [4, 5, 6]]), True),                             # out of range, bidirectional: one error
-    ([([1], 9, MISSING)], np.array([[1, 2, 3], [4, 5, 6]]), True),                          # short path, no old value
-    ([([0, 1], 9, MISSING), ([0, 3], 9, MISSING), ([1, 2], 8, MISSING)], np.array([[1, 2, 3], [4, 5, 6]]), False),
-    # outside the domain predicate
-    ([([1], 9, 4)], np.array([[1, 2, 3], [4, 5, 6]]), True),                                # ValueError escapes
-    ([([1], None, MISSING)], np.array([1.5, 2.5]), False),                                  # NaN
-]
+def fixed_handbuilt():
+    """[(entries, array, bidir)]: the error branches of apply_np, one by one (fresh arrays on every call)"""
+    return [
+        ([([0, 3], np.int64(9), MISSING)], np.array([[1, 2, 3], [4, 5, 6]]), False),            # last index out of range
+        ([([2, 1], np.int64(9), MISSING)], np.array([[1, 2, 3], [4, 5, 6]]), False),            # first index out of range
+        ([([1, 1, 0], np.int64(9), MISSING)], np.array([[1, 2, 3], [4, 5, 6]]), False),         # path too long
+        ([([1, 1, 0, 0, 0], 9, MISSING)], np.array([[1, 2, 3], [4, 5, 6]]), False),             # much too long
+        ([([1], np.int64(9), MISSING)], np.array([[1, 2, 3], [4, 5, 6]]), False),               # too short: broadcast over the row
+        ([([1], 50, MISSING), ([1, 0], 5, MISSING)], np.arange(8).reshape(2, 2, 2), False),     # block, then a sub-block of it
+        ([([1, 0], 5, MISSING), ([1], 50, MISSING)], np.arange(8).reshape(2, 2, 2), False),     # the other order
+        ([([1], 2, MISSING)], np.zeros((2, 0), dtype="int64"), False),                          # empty block
+        ([([0, 0], 2, MISSING)], np.zeros((2, 0), dtype="int64"), False),                       # no element at all
+        ([([0, 1], None, MISSING)], np.array([[1, 2, 3], [4, 5, 6]]), False),                   # None into int64: TypeError logged
+        ([([0, 1], None, 7)], np.array([[1, 2, 3], [4, 5, 6]]), True),                          # ... + verification error
+        ([([1], None, MISSING)], np.array([True, True]), False),                                # None into bool: False
+        ([([0, 1], -1.5, MISSING)], np.array([[1, 2, 3], [4, 5, 6]]), False),                   # truncation towards zero
+        ([([0, 1], 2.5, MISSING)], np.array([[1, 2, 3], [4, 5, 6]], dtype="int32"), False),
+        ([([1], 0.5, MISSING)], np.array([True, False]), False),
+        ([([1], True, MISSING)], np.array([1.5, 2.5]), False),
+        ([([0, 1], 7, 2.0)], np.array([[1, 2, 3], [4, 5, 6]]), True),                           # old value equal across types
+        ([([0, 1], 7, True)], np.array([[1, 2, 3], [4, 5, 6]]), True),                          # wrong old value
+        ([([0, 1], 7, MISSING)], np.array([[1, 2, 3], [4, 5, 6]]), True),                       # old value missing
+        ([([0, 5], 7, 1)], np.array([[1, 2, 3], [4, 5, 6]]), True),                             # out of range, bidirectional: one error
+        ([([1], 9, MISSING)], np.array([[1, 2, 3], [4, 5, 6]]), True),                          # short path, no old value
+        ([([0, 1], 9, MISSING), ([0, 3], 9, MISSING), ([1, 2], 8, MISSING)], np.array([[1, 2, 3], [4, 5, 6]]), False),
+        # outside the domain predicate
+        ([([1], 9, 4)], np.array([[1, 2, 3], [4, 5, 6]]), True),                                # ValueError escapes
+        ([([1], None, MISSING)], np.array([1.5, 2.5]), False),                                  # NaN
+    ]
 
 
 def corr_fixed(ctx, cases):
-    from deepdiff import Delta
-    for entries, c, bidir in FIXED_HANDBUILT:
-        dom = dom_py(entries, c, bidir)
-        r, errs = apply_impl(Delta(py_payload(entries, c.dtype.name), bidirectional=bidir), c)
-        coq = coq_payload(entries, c.dtype.name)
-        tag = dict(numpy=True, fixed=[[idx, repr(new), "MISSING" if old is MISSING else repr(old)] for idx, new, old in entries],
-                   base=NP.describe(c), bidirectional=bidir, in_domain=dom)
-        if dom:
-            cases.append(("sx_np_apply %s %s %s" % (coq_bool(bidir), coq, NP.arr_to_coq(c)),
-                          [True, result_obs(r, errs) if not isinstance(r, tuple) else list(r)], tag))
-            ctx.count("np:fixed:in_domain:errors_%d" % errs)
-        else:
-            cases.append(("SL [sx_bool (np_dom %s %s %s)]" % (coq_bool(bidir), coq, NP.arr_to_coq(c)), [False], tag))
-            ctx.count("np:fixed:outside_domain:%s" % ("raised_" + r[1] if isinstance(r, tuple) else "returned"))
+    for entries, c, bidir in fixed_handbuilt():
+        handbuilt_case(ctx, entries, c, bidir, cases, "fixed")
 
 
 # ---------------------------------------------------------------------------
